@@ -96,6 +96,11 @@ def lastK {α} (l : List α) (k : Int) : List α :=
   if k ≤ 0 then (if k = 0 then l else l.drop (-k).toNat)   -- `vals[-k:]` with negative k is `vals[|k|:]`
   else l.drop (l.length - k.toNat)
 
+/-- Python's `lst[lo:]` for an `int` `lo`: from position `lo` when `lo ≥ 0`, the last `|lo|` elements when `lo < 0`
+(everything when `|lo|` exceeds the length).  In particular `lst[-k:]` with `k = 0` is the whole list (`-0 == 0`). -/
+def sliceFrom {α} (l : List α) (lo : Int) : List α :=
+  if 0 ≤ lo then l.drop lo.toNat else l.drop (l.length - (-lo).toNat)
+
 /-- Python's `int(x)` for an exact rational (truncation toward zero). -/
 def truncRat (r : Rat) : Int := if 0 ≤ r then r.floor else r.ceil
 
